@@ -36,20 +36,20 @@ Definition tres_matches (r : tres) (snd : sender) (o : tobs) (top_value_moved : 
   end.
 
 (* ---------------------------------------------------------------- op-sequence cases *)
-Definition pre_acct : Type := (Z * bool * Z * Z * Z * Z * list (Z * Z))%type.   (* addr, exists, account number, nonce, balance, code, storage *)
+Definition pre_acct : Type := (Z * bool * Z * Z * Z * Z * list (Z * Z) * bool)%type.   (* addr, exists, account number, nonce, balance, code, storage, holds another denomination (evermint only) *)
 Definition post_acct : Type := (Z * Z * Z * Z * list (Z * Z))%type.             (* addr, nonce, balance, code, probed storage *)
 
 Fixpoint stor_fn (l : list (Z * Z)) : Z -> Z :=
   match l with [] => zf | (k, v) :: r => upd (stor_fn r) k v end.
 
 Definition is_blank (p : pre_acct) : bool :=
-  let '(_, ex, _, n, b, c, st) := p in negb ex && (n =? 0) && (b =? 0) && (c =? 0) && match st with [] => true | _ => false end.
+  let '(_, ex, _, n, b, c, st, _) := p in negb ex && (n =? 0) && (b =? 0) && (c =? 0) && match st with [] => true | _ => false end.
 
 Fixpoint g_objs_of (l : list pre_acct) : Z -> option gobj :=
   match l with
   | [] => fun _ => None
   | p :: r =>
-      let '(a, ex, _, n, b, c, st) := p in
+      let '(a, ex, _, n, b, c, st, _) := p in
       if is_blank p then g_objs_of r
       else upd (g_objs_of r) a (Some (mkGobj n b c (stor_fn st) (stor_fn st) false))
   end.
@@ -58,9 +58,9 @@ Fixpoint e_store_of (l : list pre_acct) (mods : list Z) (next : Z) : estore :=
   match l with
   | [] => mkEstore (fun _ => None) zf (fun _ => false) zf (fun _ => []) next (fun a => memZ a mods)
   | p :: r =>
-      let '(a, ex, num, n, b, c, st) := p in
+      let '(a, ex, num, n, b, c, st, ot) := p in
       let s := e_store_of r mods next in
-      mkEstore (if ex then upd (e_acc s) a (Some (num, n)) else e_acc s) (upd (e_bal s) a b) (e_other s)
+      mkEstore (if ex then upd (e_acc s) a (Some (num, n)) else e_acc s) (upd (e_bal s) a b) (upd (e_other s) a ot)
                (upd (e_ch s) a c) (upd (e_st s) a st) (e_next s) (e_module s)
   end.
 
